@@ -161,3 +161,84 @@ class BuildPsbtBounded:
         no_dust = result.change_index is None or result.change >= fee_mod.dust_threshold(change_script_pub_key)
         exact_fee_with_change = result.change_index is None or result.fee == owed
         return conserves and pays_rate and no_dust and exact_fee_with_change
+
+
+# ---------------------------------------------------------------- estimated input sizes (C18)
+def _push_len(n):
+    """bytes script.serialize writes for a data push of n bytes (Core's CScript::operator<<)"""
+    if n == 0:
+        return 1
+    if n < 76:
+        return 1 + n
+    if n <= 0xFF:
+        return 2 + n
+    if n <= 0xFFFF:
+        return 3 + n
+    return 5 + n
+
+
+def _gen_est(rng):
+    import hashlib
+    from btclib.psbt.psbt_in import PsbtIn
+    from btclib.tx.out_point import OutPoint
+    from btclib.tx.tx_in import TxIn
+    from btclib.tx.tx_out import TxOut
+    from spec.ec_ref import SECP256K1 as C, sec_compressed
+    h160 = lambda b: hashlib.new("ripemd160", hashlib.sha256(b).digest()).digest()
+
+    def pub(i, compressed):
+        P = C.mul(i + 2, C.G)
+        return sec_compressed(P) if compressed else b"\x04" + P[0].to_bytes(32, "big") + P[1].to_bytes(32, "big")
+    kind = rng.choice(["p2pkh", "p2sh-multi", "p2sh-multi", "p2sh-multi", "bare-multi", "p2wpkh", "p2sh-p2wpkh", "p2wsh-multi", "p2sh-p2wsh-multi"])
+    compressed = rng.random() < 0.7
+    n = rng.choice([1, 2, 3, 7, 8, 15]) if compressed else rng.choice([1, 2, 3, 4, 7])
+    if kind == "bare-multi":
+        n = min(n, 3)
+    m = rng.randrange(1, n + 1)
+    keys = [pub(i, compressed) for i in range(n)]
+    multi = bytes([0x50 + m]) + b"".join(bytes([len(k)]) + k for k in keys) + bytes([0x50 + n]) + b"\xae"
+    kw = {}
+    if kind == "p2pkh":
+        from btclib.bip32 import BIP32KeyOrigin
+        spk = b"\x76\xa9\x14" + h160(keys[0]) + b"\x88\xac"
+        kw["hd_key_paths"] = {keys[0]: BIP32KeyOrigin(bytes(4), [0])}       # the Updater's derivation data says which spelling of the key is hashed
+        want = (_push_len(72) + _push_len(len(keys[0])), [])
+    elif kind == "p2sh-multi":
+        spk = b"\xa9\x14" + h160(multi) + b"\x87"
+        kw["redeem_script"] = multi
+        want = (1 + m * _push_len(72) + _push_len(len(multi)), [])
+    elif kind == "bare-multi":
+        spk = multi
+        want = (1 + m * _push_len(72), [])
+    elif kind == "p2wpkh":
+        spk = b"\x00\x14" + h160(pub(0, True))
+        want = (0, [72, 33])
+    elif kind == "p2sh-p2wpkh":
+        red = b"\x00\x14" + h160(pub(0, True))
+        spk = b"\xa9\x14" + h160(red) + b"\x87"
+        kw["redeem_script"] = red
+        want = (_push_len(22), [72, 33])
+    else:
+        keys = [pub(i, True) for i in range(n)]
+        multi = bytes([0x50 + m]) + b"".join(bytes([len(k)]) + k for k in keys) + bytes([0x50 + n]) + b"\xae"
+        wp = b"\x00\x20" + hashlib.sha256(multi).digest()
+        kw["witness_script"] = multi
+        if kind == "p2wsh-multi":
+            spk = wp
+            want = (0, [0] + [72] * m + [len(multi)])
+        else:
+            spk = b"\xa9\x14" + h160(wp) + b"\x87"
+            kw["redeem_script"] = wp
+            want = (_push_len(34), [0] + [72] * m + [len(multi)])
+    psbt_in = PsbtIn(witness_utxo=TxOut(100000, spk), **kw)
+    return dict(psbt_in=psbt_in, tx_in=TxIn(OutPoint(b"\x05" * 32, 0)), _want=want)
+
+
+@contract("btclib.psbt.psbt_size.estimated_input_sizes", gen=_gen_est, props="C18", n_quick=300, n_thorough=5000,
+          rule="p2pkh, bare / p2sh / p2wsh / p2sh-p2wsh m-of-n multisig with 1..15 compressed or 1..7 uncompressed keys (redeem scripts on both sides of the 75/76 and 255/256 push boundaries), p2wpkh, p2sh-p2wpkh")
+class EstimatedInputSizesBounded:
+    """the estimate is the script_sig length and witness element sizes of the spend with 72-byte
+    signatures, pushes written as CScript writes them: never below any transaction the library signs"""
+
+    def post_is_worst_case_layout(_want, result):
+        return (result[0], list(result[1])) == (_want[0], list(_want[1]))
